@@ -134,7 +134,7 @@ func r16_1(r *Report, p *Program, e *syncEntry) {
 			r.Check("R16.3", FK(f)+"→SetNestedField(status)[value]", p.InstrPos(m.Instr), okS, "status written is syncResult.Status", "status written is "+E(val))
 			// null status ⇒ replaced by current status first
 			var subst ssa.Instruction
-			for _, b := range f.Blocks {
+			for _, b := range engine.BlocksInl(f) {
 				for _, in := range b.Instrs {
 					if st, isS := in.(*ssa.Store); isS && strings.HasSuffix(E(st.Addr), "#0.Status") && engine.DependsOnCall(st.Val, engine.HasSuffix("unstructured.NestedMap"), nil) != nil {
 						nm := engine.DependsOnCall(st.Val, engine.HasSuffix("unstructured.NestedMap"), nil)
@@ -180,7 +180,19 @@ func r16_1(r *Report, p *Program, e *syncEntry) {
 	for _, s := range sinks {
 		in := s.Instr.(ssa.Instruction)
 		w := unguarded(f, nil, in, changed)
-		r.Check("R16.4", s.Construct()+"[only-on-change]", p.InstrPos(in), w == nil, "write only if labels/annotations/status changed or finalizer must go", "the target is written although nothing changed; "+pathWhy(w))
+		whyW := "the target is written although nothing changed; " + pathWhy(w)
+		if w == nil {
+			// 'finalized' alone changes nothing: it only counts together with 'our finalizer is still there'
+			strict := func(l Lit) bool { return changed(l) && !strings.HasSuffix(l.Atom, "#0.Finalized") }
+			hasFin := func(l Lit) bool {
+				return l.Pos && strings.HasPrefix(l.Atom, "call(controllerutil.ContainsFinalizer)(") && strings.HasSuffix(l.Atom, ".finalizer.Name)")
+			}
+			if w2 := unguarded(f, nil, in, func(l Lit) bool { return strict(l) || hasFin(l) }); w2 != nil {
+				w = w2
+				whyW = "the target is written because the hook answered finalized although our finalizer is not on it (nothing to remove) and nothing else changed: every such answer sends a no-op update; " + pathWhy(w2)
+			}
+		}
+		r.Check("R16.4", s.Construct()+"[only-on-change]", p.InstrPos(in), w == nil, "write only if labels/annotations/status changed or finalizer must go", whyW)
 		if s.Verb == "UpdateStatus" {
 			w1 := unguarded(f, nil, in, statusChanged)
 			w2 := unguarded(f, nil, in, func(l Lit) bool {
@@ -203,7 +215,7 @@ func r16_1(r *Report, p *Program, e *syncEntry) {
 						// on the success edge of UpdateStatus every path to Update passes it
 						var from []engine.Point
 						succ := successEdgeOf(us.Instr)
-						for _, b := range f.Blocks {
+						for _, b := range engine.BlocksInl(f) {
 							for i := range b.Succs {
 								if l, has := engine.EdgeLit(b, i); has && succ(l) {
 									from = append(from, engine.Point{B: b.Succs[i]})
@@ -381,7 +393,7 @@ func r16_5(r *Report, p *Program, e *syncEntry) {
 				}
 			}
 			n := 0
-			for _, b := range nd.Blocks {
+			for _, b := range engine.BlocksInl(nd) {
 				for _, in := range b.Instrs {
 					if mu, isMU := in.(*ssa.MapUpdate); isMU {
 						n++
